@@ -67,9 +67,9 @@ PDU::~PDU() {
 }
 
 void PDU::copy_inner_pdu(const PDU& pdu) {
-    if (pdu.inner_pdu()) {
-        inner_pdu(pdu.inner_pdu()->clone());
-    }
+    // Also drop our current inner PDU when the source has none, so that
+    // the result of a copy assignment always mirrors its source
+    inner_pdu(pdu.inner_pdu() ? pdu.inner_pdu()->clone() : 0);
 }
 
 void PDU::prepare_for_serialize() {
